@@ -7,6 +7,7 @@ import AmVerif.Model.QueueProto
 import AmVerif.Model.Pipes
 import AmVerif.Model.History
 import AmVerif.Model.Dbg
+import AmVerif.Model.Super
 import AmVerif.Model.RpcCodec
 import AmVerif.Model.Time
 namespace Am
@@ -133,6 +134,8 @@ structure DState where
   hcfg : Hist.Cfg := {}
   dbgc : Dbg.Client := { n := 0, exc := 0 }
   dbgf : Dbg.Filters := {}
+  supc : Super.Cfg := { min := 0, max := 0, warm := 0, errKill := 3 }
+  sups : Super.St := {}
   hdb : List Hist.Rec := []
   pipeNew : Bool := true
   pipeFlat : Bool := false
@@ -372,8 +375,32 @@ def stepDbg (d : DState) (toks : List String) : Option (DState × String) :=
     some (d, s!"cursor={r}")
   | _ => none
 
+/-- supervisor commands (C15). -/
+def stepSuper (d : DState) (toks : List String) : Option (DState × String) :=
+  let n := fun (s : String) => s.toNat?.getD 0
+  let go := fun (e : Super.Ev) =>
+    let r := Super.step d.supc d.sups e
+    let o := match r.2 with | .ok => "ok" | .vetoed => "vetoed" | .kill a => s!"kill:{a}"
+    some ({ d with sups := r.1 },
+      s!"out={o} tracked={r.1.tracked.length} pr={if r.1.poolReady then 1 else 0}")
+  match toks with
+  | ["sup", "init", mn, mx, wm, ek] =>
+    some ({ d with supc := { min := n mn, max := n mx, warm := n wm, errKill := n ek }, sups := {} }, "ok")
+  | ["sup", "fork"] => go .forkGate
+  | ["sup", "failed"] => go .forkFailed
+  | ["sup", "set", a] => go (.setWorker (n a))
+  | ["sup", "del", a] => go (.delWorker (n a))
+  | ["sup", "forked", a, b] => go (.workerForked (n a) (n b))
+  | ["sup", "err", a] => go (.errWorker (n a))
+  | ["sup", "addpr", r] => go (.addPoolReady (n r))
+  | ["sup", "rempr", r] => go (.remPoolReady (n r))
+  | _ => none
+
 def stepLine (d : DState) (line : String) : DState × String :=
   let toks0 := (line.trimAscii.toString.splitOn " ").filter (· != "")
+  match stepSuper d toks0 with
+  | some r => r
+  | none =>
   match stepDbg d toks0 with
   | some r => r
   | none =>
